@@ -99,7 +99,7 @@ class DState:
 
 @harness('D4d', targets='kopf._core.engines.daemons._daemon', props=['C09', 'C11', 'C08', 'C20', 'C06', 'C13'],
          prop_clauses={'C20': ['not_started_when_stopped', 'sleeps_wake_on_stop_only', 'no_spin', 'cancellation_propagates'], 'C06': ['not_started_when_stopped'], 'C13': ['not_started_when_stopped', 'sleeps_wake_on_stop_only']},
-         clauses=['no_self_overlap', 'not_started_when_stopped', 'finished_not_invoked_again', 'first_run_after_initial_delay',
+         clauses=['limits_counted_from_the_first_attempt', 'no_self_overlap', 'not_started_when_stopped', 'finished_not_invoked_again', 'first_run_after_initial_delay',
                   'retry_not_before_delay', 'state_threaded', 'results_then_patch_applied', 'patch_carried_over',
                   'sleeps_wake_on_stop_only', 'no_spin', 'exits_only_when_stopped_or_done', 'cancellation_propagates'],
          canaries=['canary.never_runs', 'canary.never_sleeps', 'canary.never_exits'],
@@ -109,7 +109,7 @@ class DState:
                   'progression.deliver_results: writes the results of the outcomes into the patch given'],
          assumes=['initial_delay is None, a number, or a callable returning a number (kopf.daemon docs)',
                   'the stop flag is only ever raised, never cleared (aioenums.FlagSetter; D2/D3)'],
-         clause_props={'patch_carried_over': ['C08'], 'results_then_patch_applied': ['C08'], 'retry_not_before_delay': ['C11'], 'finished_not_invoked_again': ['C11', 'C09'], 'state_threaded': ['C11'], 'first_run_after_initial_delay': ['C09'], 'no_self_overlap': ['C09'], 'not_started_when_stopped': ['C09', 'C20', 'C06', 'C13'], 'sleeps_wake_on_stop_only': ['C09', 'C11', 'C20', 'C13'], 'no_spin': ['C09', 'C20'], 'exits_only_when_stopped_or_done': ['C09', 'C11'], 'cancellation_propagates': ['C09', 'C20']})
+         clause_props={'patch_carried_over': ['C08'], 'results_then_patch_applied': ['C08'], 'retry_not_before_delay': ['C11'], 'finished_not_invoked_again': ['C11', 'C09'], 'state_threaded': ['C11'], 'first_run_after_initial_delay': ['C09'], 'limits_counted_from_the_first_attempt': ['C11', 'C09'], 'no_self_overlap': ['C09'], 'not_started_when_stopped': ['C09', 'C20', 'C06', 'C13'], 'sleeps_wake_on_stop_only': ['C09', 'C11', 'C20', 'C13'], 'no_spin': ['C09', 'C20'], 'exits_only_when_stopped_or_done': ['C09', 'C11'], 'cancellation_propagates': ['C09', 'C20']})
 def D4d(vc):
     """
     daemons._daemon: ONE arbitrary round of `while not stopper.is_set() and not state.done` (loop contract) from an
@@ -127,6 +127,8 @@ def D4d(vc):
       state_threaded             one attempt per round, on exactly [handler] with the cause/settings given and the state
                                  at the loop head; the next state is that state .with_outcomes(the attempt's outcomes);
                                  the first state is State.from_scratch().with_handlers([handler]);
+      limits_counted_from_the_first_attempt  that state is made AFTER the initial delay, right before the first attempt (its
+                                 `started` stamp is what retries/timeout are counted from);
       results_then_patch_applied (C08) the outcomes' results are delivered into the current patch, which is then applied
                                  by patch_and_check(patch=that patch, body, resource, settings) -- in this order, each once;
       patch_carried_over         (C08) afterwards cause.patch := Patch(<remaining patch returned>, body=body), and this is
@@ -173,6 +175,8 @@ def D4d(vc):
     class StateCls:
         @staticmethod
         def from_scratch():
+            G.scratch_susp = G.susp          # State.from_scratch() stamps `started` = now: the instant retries/timeout count from (G12)
+
             def with_handlers(hs):
                 s = DState(vc, clock, 'fresh')
                 vc.emit('fresh_state', hs, s)
@@ -232,6 +236,9 @@ def D4d(vc):
         st = loc.get('state')
         fresh = [ev for ev in vc.trace if ev[0] == 'fresh_state']
         vc.ensure('state_threaded', len(fresh) == 1 and fresh[0][1] == [handler] and st is fresh[0][2])
+        # C11 "with timeout=T no attempt starts later than T after the FIRST one": the daemon's clock of attempts starts when the
+        # attempts start -- the state is made after the initial delay, with no suspension point before the loop is entered
+        vc.ensure('limits_counted_from_the_first_attempt', getattr(G, 'scratch_susp', None) == G.susp)
         if idk:
             vc.ensure('first_run_after_initial_delay', Or(stop.state, clock.now >= t_entry + d0))
             G.bound = t_entry + d0
@@ -1077,6 +1084,12 @@ def _u4_ultimate(vc):
         return Opaque('timer-handle')
 
     def on_suspend(site):
+        # this task is NOT guarded by the started-flag: it sleeps while the startup handlers run, and docs/configuration.rst has the
+        # settings configured there (`@kopf.on.startup ... settings.process.ultimate_exiting_timeout = ...`): the value that
+        # counts is the one in the settings when the shutdown begins, not the one seen when the task started
+        nonlocal timeout
+        timeout = vc.opt('ultimate_exiting_timeout as configured by the startup handlers', vc.real)
+        settings.process.ultimate_exiting_timeout = timeout
         st.cancel = asyncio.CancelledError()          # the only way out of the sleep: the shutdown has begun
         vc.emit('cancelled')
         return st.cancel
